@@ -87,6 +87,9 @@ def drain(loop):
         asyncio.events._set_running_loop(None)
 
 
+SHARED_RESOLVER = False      # harness switch: see World.resolver
+
+
 class World:
     """kinds: dict field-key -> kind for 'a', 'o', 'x', 'nn', 'l', 'm1', 'm2', 'm3', 'y' (missing = PLAIN)"""
 
@@ -97,6 +100,7 @@ class World:
         self.pending = []           # asyncio: (future, thunk)
         self.loop = None
         self.log = log if log is not None else []
+        self._shared = None
 
     def _compute(self, key, kind, root, path=None):
         self.log.append(("resolver", key, root.get("id") if isinstance(root, dict) else None, path))
@@ -112,6 +116,12 @@ class World:
         kind = self.kinds.get(key, PLAIN)
         if kind == PLAIN and not (key == "nn" and self.nn_null):
             return None
+        if SHARED_RESOLVER:
+            # ONE function object serves every non-plain field (it looks the field up in info): what a generic
+            # data-loader style resolver does, and what the executor's per-resolver caches must cope with
+            if self._shared is None:
+                self._shared = self._make_shared()
+            return self._shared
         if self.mode == "async":
             async def r(root, ctx, info, **kw):
                 fut = self.loop.create_future()
@@ -120,6 +130,23 @@ class World:
             return r
 
         def r(root, ctx, info, **kw):  # noqa: F811
+            return self._compute(key, kind, root, tuple(info.path))
+        return r
+
+    def _make_shared(self):
+        def of(info):
+            key = info.field_definition.name
+            return key, self.kinds.get(key, PLAIN)
+        if self.mode == "async":
+            async def r(root, ctx, info, **kw):
+                key, kind = of(info)
+                fut = self.loop.create_future()
+                self.pending.append((fut, lambda: self._compute(key, kind, root, tuple(info.path))))
+                return await fut
+            return r
+
+        def r(root, ctx, info, **kw):  # noqa: F811
+            key, kind = of(info)
             return self._compute(key, kind, root, tuple(info.path))
         return r
 
